@@ -54,4 +54,18 @@ def cfgPy (maxPayload : Nat) : Cfg where
   payload := fun h => u32le h 16
   bodyOk := pyCrcOk
 
+/-- Header acceptance when scanning a file (`MixedLogReader._read_next`, the indexer's
+`header.unpack(validate_crc=True)`): sync bytes and the payload sanity limit; the reserved bytes are not
+looked at. -/
+def fileHeaderOk (h : Bytes) : Bool :=
+  decide (byteAt h 0 = SYNC0) && decide (byteAt h 1 = SYNC1) && decide (u32le h 16 ≤ MAX_EXPECTED)
+
+/-- The framing configuration of a sequential scan of a file. -/
+def cfgFile : Cfg where
+  hdrLen := HDR
+  hdrLen_pos := by decide
+  headerOk := fileHeaderOk
+  payload := fun h => u32le h 16
+  bodyOk := pyCrcOk
+
 end FeVerif
